@@ -1,4 +1,4 @@
-import Proofs.Lemmas.C08FragEsc
+import Proofs.Lemmas.C08FragCls
 /-!
 # C08 fragment equivalence, part 3: the simulation
 
@@ -25,11 +25,12 @@ theorem quantStep_some {g : Nat} {out : AtomOut} {q : Quant} {r2 : List Nat}
   rfl
 
 /-- Quantifiable atom: the optional quantifier, crate against grammar. -/
-theorem quantStep_qa {e u : Bool} (g : Nat) (out : AtomOut) (hqa : out.quantifierAllowed = true)
-    (hoff : out.startOffset ≤ out.result.length) (hi : PInv e u out.st) :
+theorem quantStep_qa {e k u : Bool} {G K : Nat} (g : Nat) (out : AtomOut) (hqa : out.quantifierAllowed = true)
+    (hoff : out.startOffset ≤ out.result.length) (hi : PInv e k u G K out.st) :
     match optQuant out.st.input with
     | .ok r2 =>
-      (∃ st' acc', quantStep g out = .ok (st', acc') ∧ st'.input = r2 ∧ st'.depth = out.st.depth ∧ PInv e u st') ∨
+      (∃ st' acc', quantStep g out = .ok (st', acc') ∧ st'.input = r2 ∧ st'.depth = out.st.depth ∧
+        PInv e k u G K st' ∧ st'.groupCount = out.st.groupCount) ∨
       (qbad u r2 = true ∧ IsSyn (quantStep g out))
     | .bad => IsSyn (quantStep g out)
     | .fuel => False := by
@@ -49,7 +50,7 @@ theorem quantStep_qa {e u : Bool} (g : Nat) (out : AtomOut) (hqa : out.quantifie
     simp only
     rcases hs with ⟨hb, rfl, hq⟩ | ⟨hb, hd, q, hq, hrev⟩ | ⟨hb, rfl, msg, hq⟩
     · left
-      refine ⟨out.st, out.result, ?_, rfl, rfl, hi⟩
+      refine ⟨out.st, out.result, ?_, rfl, rfl, hi, rfl⟩
       unfold quantStep
       rw [hu, hq]
     · left
@@ -59,9 +60,9 @@ theorem quantStep_qa {e u : Bool} (g : Nat) (out : AtomOut) (hqa : out.quantifie
       have hql := quants_qdrop hd
       have hl := hi.loops
       rw [if_neg (by simp only [Gen.MAX_LOOPS]; omega)]
-      obtain ⟨p, hp, hnp⟩ := hd.neutral e
+      obtain ⟨p, hp, hnp⟩ := hd.neutral e k
       have hi2 := hi.drop hp hnp
-      refine ⟨_, _, rfl, rfl, rfl, ⟨hi2.uni, hi2.frag, hi2.chars, hi2.depth, hi2.groups, ?_⟩⟩
+      refine ⟨_, _, rfl, rfl, rfl, ⟨hi2.uni, hi2.nov, hi2.frag, hi2.chars, hi2.depth, hi2.groups, ?_, hi2.gmax, hi2.cap⟩, rfl⟩
       simp only; omega
     · right
       refine ⟨hb, msg, ?_⟩
@@ -69,8 +70,8 @@ theorem quantStep_qa {e u : Bool} (g : Nat) (out : AtomOut) (hqa : out.quantifie
       rw [hu, hq]
 
 /-- Non-quantifiable atom (anchors, look-arounds): the crate still looks for a quantifier. -/
-theorem quantStep_noq {e u : Bool} (g : Nat) (out : AtomOut) (hqa : out.quantifierAllowed = false)
-    (hi : PInv e u out.st) :
+theorem quantStep_noq {e k u : Bool} {G K : Nat} (g : Nat) (out : AtomOut) (hqa : out.quantifierAllowed = false)
+    (hi : PInv e k u G K out.st) :
     (qbad u out.st.input = false → quantStep g out = .ok (out.st, out.result)) ∧
     (qbad u out.st.input = true → IsSyn (quantStep g out)) := by
   have hu := hi.uni
@@ -442,13 +443,14 @@ theorem cAtom_wb {cd : PState → Res (Node × PState)} {st : PState} {acc : Lis
 
 /-- An escape that is not `\b` / `\B`, UnicodeMode: the crate's backslash arm against the grammar's
 `AtomEscape`. -/
-theorem backslash_sim (e : Bool) (c : Cfg) (hcu : c.u = true) (st : PState) (hu : st.flags.unicode = true)
-    (acc : List Node) {r0 : List Nat} (hin : st.input = 0x5C :: r0) (hfr : fragCore e (0x5C :: r0) = true)
-    (hch : AllChar r0) (hwb : lookShape (0x5C :: r0) = false) (est : ESG.St) :
+theorem backslash_sim (e k : Bool) (c : Cfg) (hcu : c.u = true) (st : PState) (hu : st.flags.unicode = true)
+    (acc : List Node) {r0 : List Nat} (hin : st.input = 0x5C :: r0) (hfr : fragCore e k (0x5C :: r0) = true)
+    (hch : AllChar r0) (hwb : lookShape (0x5C :: r0) = false)
+    (hnd : ∀ x r, r0 = x :: r → ¬ (0x31 ≤ x ∧ x ≤ 0x39)) (est : ESG.St) :
     match atomEscape c r0 est with
     | .ok (r', est') => est' = est ∧ ∃ nd p,
         atomBackslashA st acc = .ok ⟨acc ++ [nd], { st with input := r' }, acc.length, true⟩ ∧
-        0x5C :: r0 = p ++ r' ∧ Neutral e p
+        0x5C :: r0 = p ++ r' ∧ Neutral e k p
     | .bad => IsSyn (atomBackslashA st acc)
     | .fuel => False := by
   rcases r0 with _ | ⟨x, r⟩
@@ -471,7 +473,8 @@ theorem backslash_sim (e : Bool) (c : Cfg) (hcu : c.u = true) (st : PState) (hu 
       have e2 : (x == 0x42) = false := by simp [hwb.2]
       simp only [e1, e2, hu, Bool.not_true, Bool.and_false, Bool.false_eq_true, if_false]
       rfl
-    have hsim := atomEscape_sim c hcu { st with input := x :: r } hu rfl hx hch.tail est
+    have hd := hnd x r rfl
+    have hsim := atomEscape_sim c hcu { st with input := x :: r } hu rfl hx hd hch.tail est
     rw [hab]
     cases hae : atomEscape c (x :: r) est with
     | fuel => rw [hae] at hsim; exact hsim
@@ -484,115 +487,194 @@ theorem backslash_sim (e : Bool) (c : Cfg) (hcu : c.u = true) (st : PState) (hu 
       obtain ⟨r', est'⟩ := p
       rw [hae] at hsim
       obtain ⟨nd, hnd⟩ := hsim
-      obtain ⟨hest, t, ht, hnt⟩ := atomEscape_neutral e c hcu hx hae
+      obtain ⟨hest, t, ht, hnt⟩ := atomEscape_neutral e k false c hcu hx hd hae
       simp only
       rw [hnd]
       refine ⟨hest, nd, 0x5C :: x :: t, rfl, by rw [ht]; rfl, ?_⟩
-      exact neutral_append (p := [0x5C, x]) (neutral_esc e x) hnt
+      exact neutral_append (p := [0x5C, x]) (neutral_esc e k x) hnt
+
+/-- A decimal escape, UnicodeMode: the crate's backslash arm. -/
+theorem backslash_dec (st : PState) (hu : st.flags.unicode = true) (acc : List Node) {x : Nat} {r : List Nat}
+    (hin : st.input = 0x5C :: x :: r) (hd : 0x31 ≤ x ∧ x ≤ 0x39) :
+    atomBackslashA st acc =
+      if min (takeDigits (x :: r) 0 0).1 USIZE_MAX ≤ st.groupCountMax then
+        .ok ⟨acc ++ [.backRef (min (takeDigits (x :: r) 0 0).1 USIZE_MAX) st.flags.icase],
+          { st with input := (takeDigits (x :: r) 0 0).2.2 }, acc.length, true⟩
+      else synErr "Invalid character escape" := by
+  unfold atomBackslashA
+  rw [consume_eq hin]
+  have e1 : (x == 0x62) = false := by simp; omega
+  have e2 : (x == 0x42) = false := by simp; omega
+  simp only [e1, e2, hu, Bool.not_true, Bool.and_false, Bool.false_eq_true, if_false]
+  rw [consumeAtomEscape_dec { st with input := x :: r } hu rfl hd]
+  by_cases h : min (takeDigits (x :: r) 0 0).1 USIZE_MAX ≤ st.groupCountMax
+  · simp only [h, if_true]
+  · simp only [h, if_false]; rfl
 
 theorem plain_punct {c : Nat} (h : c = 0x3F ∨ c = 0x3C ∨ c = 0x3D ∨ c = 0x21 ∨ c = 0x3A) : Plain c := by
-  rcases h with rfl | rfl | rfl | rfl | rfl <;> (refine ⟨?_, ?_, ?_⟩ <;> decide)
+  rcases h with rfl | rfl | rfl | rfl | rfl <;> (refine ⟨?_, ?_, ?_, ?_, ?_⟩ <;> decide)
 
 /-! ## The simulation statements -/
 
 /-- Crate-side outcome: the state has input `r`, the depth of `st`, and satisfies the invariant. -/
-def CR (e u : Bool) (st : PState) (r : List Nat) (st' : PState) : Prop :=
-  st'.input = r ∧ st'.depth = st.depth ∧ PInv e u st'
+def CR (e k u : Bool) (G K : Nat) (st : PState) (r : List Nat) (st' : PState) : Prop :=
+  st'.input = r ∧ st'.depth = st.depth ∧ PInv e k u G K st'
 
-/-- Outcome of one term-loop iteration against a grammar `Term` that left `r`: either the crate is
-at `r` too, or the crate has already failed on a quantifier that the grammar will fail on next. -/
-def TStep (e u : Bool) (f : Nat) (st : PState) (acc : List Node) (x : Nat) (r : List Nat) : Prop :=
-  (∃ st' acc', termStep f st acc x = .ok (st', acc') ∧ CR e u st r st') ∨
+/-- Outcome of a step of the grammar recognizer against the crate.  The grammar's result is `ok`
+with a state within the pre-scan count and the crate agrees (`good`), or `ok` with a state that
+has seen a decimal escape beyond the pre-scan count and the crate has failed (`syn`), or `bad` and
+the crate has failed. -/
+def Out (G : Nat) (res : R (List Nat × ESG.St)) (good : List Nat → ESG.St → Prop) (syn : Prop) : Prop :=
+  match res with
+  | .ok (r, est') => (EInv G est' ∧ good r est') ∨ (Poisoned G est' ∧ syn)
+  | .bad => syn
+  | .fuel => False
+
+theorem Out.mono {G : Nat} {res : R (List Nat × ESG.St)} {good good' : List Nat → ESG.St → Prop}
+    {syn syn' : Prop} (h : Out G res good syn) (hg : ∀ r est', EInv G est' → good r est' → good' r est')
+    (hs : syn → syn') : Out G res good' syn' := by
+  cases res with
+  | fuel => exact h
+  | bad => exact hs h
+  | ok p =>
+    obtain ⟨r, est'⟩ := p
+    rcases h with ⟨h1, h2⟩ | ⟨h1, h2⟩
+    · exact .inl ⟨h1, hg r est' h1 h2⟩
+    · exact .inr ⟨h1, hs h2⟩
+
+theorem Out.poison {G : Nat} {res : R (List Nat × ESG.St)} {good : List Nat → ESG.St → Prop} {syn : Prop}
+    (hnf : res ≠ .fuel) (hp : ∀ r est', res = .ok (r, est') → Poisoned G est') (hs : syn) :
+    Out G res good syn := by
+  cases res with
+  | fuel => exact absurd rfl hnf
+  | bad => exact hs
+  | ok p => obtain ⟨r, est'⟩ := p; exact .inr ⟨hp r est' rfl, hs⟩
+
+theorem Poisoned.mono {G : Nat} {est est' : ESG.St} (h : Poisoned G est) (hm : est.maxDec ≤ est'.maxDec) :
+    Poisoned G est' := by
+  unfold Poisoned at *; omega
+
+/-- Outcome of one term-loop iteration against a grammar `Term` that left `r` (and has counted `g'`
+groups): either the crate is at `r` too, or the crate has already failed on a quantifier that the
+grammar will fail on next. -/
+def TStep (e k u : Bool) (G K : Nat) (f : Nat) (st : PState) (acc : List Node) (x : Nat) (r : List Nat)
+    (g' : Nat) : Prop :=
+  (∃ st' acc', termStep f st acc x = .ok (st', acc') ∧ CR e k u G K st r st' ∧ g' = st'.groupCount) ∨
   (qbad u r = true ∧ IsSyn (termStep f st acc x))
 
-def SimD (c : Cfg) (e u : Bool) (n : Nat) : Prop :=
-  ∀ s est, 6 * s.length + 5 ≤ n → EInv est → ∀ f st terms, 4 * s.length + 2 ≤ f → st.input = s → PInv e u st →
-    match disj c n s est with
-    | .ok (r, est') => EInv est' ∧ ∃ ts st', disjLoop f st terms = .ok (ts, st') ∧ CR e u st r st'
-    | .bad => IsSyn (disjLoop f st terms)
-    | .fuel => False
+def SimD (c : Cfg) (e k u : Bool) (G K : Nat) (n : Nat) : Prop :=
+  ∀ s est, 6 * s.length + 5 ≤ n → EInv G est → ∀ f st terms, 4 * s.length + 2 ≤ f → st.input = s →
+    PInv e k u G K st → est.groups = st.groupCount →
+    Out G (disj c n s est)
+      (fun r est' => ∃ ts st', disjLoop f st terms = .ok (ts, st') ∧ CR e k u G K st r st' ∧
+        est'.groups = st'.groupCount)
+      (IsSyn (disjLoop f st terms))
 
-def SimA (c : Cfg) (e u : Bool) (n : Nat) : Prop :=
-  ∀ s est, 6 * s.length + 4 ≤ n → EInv est → ∀ f st acc, 4 * s.length + 1 ≤ f → st.input = s → PInv e u st →
-    match alt c n s est with
-    | .ok (r, est') => EInv est' ∧ ∃ nd st', termLoop f st acc = .ok (nd, st') ∧ CR e u st r st'
-    | .bad => IsSyn (termLoop f st acc)
-    | .fuel => False
+def SimA (c : Cfg) (e k u : Bool) (G K : Nat) (n : Nat) : Prop :=
+  ∀ s est, 6 * s.length + 4 ≤ n → EInv G est → ∀ f st acc, 4 * s.length + 1 ≤ f → st.input = s →
+    PInv e k u G K st → est.groups = st.groupCount →
+    Out G (alt c n s est)
+      (fun r est' => ∃ nd st', termLoop f st acc = .ok (nd, st') ∧ CR e k u G K st r st' ∧
+        est'.groups = st'.groupCount)
+      (IsSyn (termLoop f st acc))
 
-def SimB (c : Cfg) (e u : Bool) (n : Nat) : Prop :=
-  ∀ s est, 6 * s.length + 6 ≤ n → EInv est → ∀ f st, 4 * s.length + 3 ≤ f → st.input = s →
-    PInv e u { st with depth := st.depth + 1 } →
-    match body c n s est with
-    | .ok (r, est') => EInv est' ∧ ∃ nd st', consumeDisjunction f st = .ok (nd, st') ∧
-        st'.input = 0x29 :: r ∧ CR e u st r { st' with input := r }
-    | .bad => IsSyn (consumeDisjunction f st) ∨
-        ∃ nd st', consumeDisjunction f st = .ok (nd, st') ∧ ∀ r, st'.input ≠ 0x29 :: r
-    | .fuel => False
+/-- `consume_disjunction` failed, or stopped at something that is not `)`. -/
+def SynB (f : Nat) (st : PState) : Prop :=
+  IsSyn (consumeDisjunction f st) ∨
+    ∃ nd st', consumeDisjunction f st = .ok (nd, st') ∧ ∀ r, st'.input ≠ 0x29 :: r
 
-def SimT (c : Cfg) (e u : Bool) (n : Nat) : Prop :=
-  ∀ x r0 est, 6 * (r0.length + 1) + 3 ≤ n → EInv est → x ≠ 0x29 → x ≠ 0x7C →
-    ∀ f st acc, 4 * (r0.length + 1) ≤ f → st.input = x :: r0 → PInv e u st →
-    match term c n (x :: r0) est with
-    | .ok (r, est') => EInv est' ∧ TStep e u f st acc x r
-    | .bad => IsSyn (termStep f st acc x)
-    | .fuel => False
+def SimB (c : Cfg) (e k u : Bool) (G K : Nat) (n : Nat) : Prop :=
+  ∀ s est, 6 * s.length + 6 ≤ n → EInv G est → ∀ f st, 4 * s.length + 3 ≤ f → st.input = s →
+    PInv e k u G K { st with depth := st.depth + 1 } → est.groups = st.groupCount →
+    Out G (body c n s est)
+      (fun r est' => ∃ nd st', consumeDisjunction f st = .ok (nd, st') ∧ st'.input = 0x29 :: r ∧
+        CR e k u G K st r { st' with input := r } ∧ est'.groups = st'.groupCount)
+      (SynB f st)
 
-def SimQ (c : Cfg) (e u : Bool) (n : Nat) : Prop :=
-  ∀ x r0 est, 6 * (r0.length + 1) + 2 ≤ n → EInv est → lookShape (x :: r0) = false →
+def SimT (c : Cfg) (e k u : Bool) (G K : Nat) (n : Nat) : Prop :=
+  ∀ x r0 est, 6 * (r0.length + 1) + 3 ≤ n → EInv G est → x ≠ 0x29 → x ≠ 0x7C →
+    ∀ f st acc, 4 * (r0.length + 1) ≤ f → st.input = x :: r0 → PInv e k u G K st →
+    est.groups = st.groupCount →
+    Out G (term c n (x :: r0) est) (fun r est' => TStep e k u G K f st acc x r est'.groups)
+      (IsSyn (termStep f st acc x))
+
+def SimQ (c : Cfg) (e k u : Bool) (G K : Nat) (n : Nat) : Prop :=
+  ∀ x r0 est, 6 * (r0.length + 1) + 2 ≤ n → EInv G est → lookShape (x :: r0) = false →
     x ≠ 0x5E → x ≠ 0x24 → x ≠ 0x29 → x ≠ 0x7C →
-    ∀ f st acc, 4 * (r0.length + 1) ≤ f → st.input = x :: r0 → PInv e u st →
-    match quantified c n (x :: r0) est with
-    | .ok (r, est') => EInv est' ∧ TStep e u f st acc x r
-    | .bad => IsSyn (termStep f st acc x)
-    | .fuel => False
+    ∀ f st acc, 4 * (r0.length + 1) ≤ f → st.input = x :: r0 → PInv e k u G K st →
+    est.groups = st.groupCount →
+    Out G (quantified c n (x :: r0) est) (fun r est' => TStep e k u G K f st acc x r est'.groups)
+      (IsSyn (termStep f st acc x))
 
-def SimM (c : Cfg) (e u : Bool) (n : Nat) : Prop :=
-  ∀ x r0 est, 6 * (r0.length + 1) + 1 ≤ n → EInv est → lookShape (x :: r0) = false →
+def SimM (c : Cfg) (e k u : Bool) (G K : Nat) (n : Nat) : Prop :=
+  ∀ x r0 est, 6 * (r0.length + 1) + 1 ≤ n → EInv G est → lookShape (x :: r0) = false →
     x ≠ 0x5E → x ≠ 0x24 → x ≠ 0x29 → x ≠ 0x7C →
-    ∀ f st acc, 4 * (r0.length + 1) ≤ f → st.input = x :: r0 → PInv e u st →
-    match atom c n (x :: r0) est with
-    | .ok (r, est') => EInv est' ∧ ∃ out, consumeAtom f st acc x = .ok out ∧ CR e u st r out.st ∧
-        out.startOffset ≤ out.result.length ∧ out.quantifierAllowed = true
-    | .bad => IsSyn (consumeAtom f st acc x)
-    | .fuel => False
+    ∀ f st acc, 4 * (r0.length + 1) ≤ f → st.input = x :: r0 → PInv e k u G K st →
+    est.groups = st.groupCount →
+    Out G (atom c n (x :: r0) est)
+      (fun r est' => ∃ out, consumeAtom f st acc x = .ok out ∧ CR e k u G K st r out.st ∧
+        out.startOffset ≤ out.result.length ∧ out.quantifierAllowed = true ∧
+        est'.groups = out.st.groupCount)
+      (IsSyn (consumeAtom f st acc x))
 
 /-! ### Invariant bookkeeping -/
 
-/-- Entering a group: `(` and a neutral prefix consumed, `depth + 1`. -/
-theorem PInv.enter {e u : Bool} {st : PState} (h : PInv e u st) {p r : List Nat}
-    (hi : st.input = 0x28 :: (p ++ r)) (hp : Neutral e p) (lb : Bool) :
-    PInv e u { st with input := r, depth := st.depth + 1, hasLookbehind := lb } ∧
-    PInv e u { st with input := r, depth := st.depth + 1, groupCount := st.groupCount + 1 } ∧
-    st.groupCount < Gen.MAX_CAPTURE_GROUPS := by
+/-- Entering a non-capturing group or look-around: `(?` and a neutral prefix consumed, `depth + 1`. -/
+theorem PInv.enterQ {e k u : Bool} {G K : Nat} {st : PState} (h : PInv e k u G K st) {p r : List Nat}
+    (hi : st.input = 0x28 :: 0x3F :: (p ++ r)) (hp : Neutral e k p) (lb : Bool) :
+    PInv e k u G K { st with input := r, depth := st.depth + 1, hasLookbehind := lb } := by
   have h1 := h.depth; have h2 := h.groups; have h3 := h.loops; have h4 := h.frag
-  have h6 := h.chars
-  rw [hi] at h1 h2 h3 h4 h6
-  have e1 : md (0x28 :: (p ++ r)) = md r + 1 := by
-    rw [md_cons _ (by decide), (hp r).1]; rfl
-  have e2 : opens r + 1 ≤ opens (0x28 :: (p ++ r)) := by
+  have h6 := h.chars; have h8 := h.cap
+  rw [hi] at h1 h2 h3 h4 h6 h8
+  have e1 : md (0x28 :: 0x3F :: (p ++ r)) = md r + 1 := by
+    rw [md_cons _ (by decide) (by decide), md_cons _ (by decide) (by decide), hp.md_eq r]; rfl
+  have e2 : opens r ≤ opens (0x28 :: 0x3F :: (p ++ r)) := by
     have := opens_append_le p r
-    simp [opens]; exact this
-  have e3 : quants r ≤ quants (0x28 :: (p ++ r)) := by
+    simp [opens]; omega
+  have e3 : quants r ≤ quants (0x28 :: 0x3F :: (p ++ r)) := by
     have := quants_append_le p r
-    simp [quants]; exact this
+    simp [quants]; omega
   rw [e1] at h1
-  have h5 := (hp r).2 (fragCore_tail (by decide) h4)
-  have h7 : e = true → ∀ c ∈ r, Parse.isChar c = true := fun he c hc => h6 he c (by simp [hc])
-  refine ⟨⟨h.uni, h5, h7, ?_, ?_, ?_⟩, ⟨h.uni, h5, h7, ?_, ?_, ?_⟩, ?_⟩ <;>
-    simp only [Gen.MAX_CAPTURE_GROUPS] <;> omega
+  rw [capOpens_q, hp.cap_eq r] at h8
+  have h5 := hp.frag (fragCore_tail (by decide) (by decide) (fragCore_tail (by decide) (by decide) h4))
+  exact ⟨h.uni, h.nov, h5, fun he c hc => h6 he c (by simp [hc]), by simp only; omega, by simp only; omega,
+    by simp only; omega, h.gmax, h8⟩
 
-/-- Leaving a group: the `)` consumed, `depth` restored. -/
-theorem PInv.leave {e u : Bool} {st : PState} (h : PInv e u st) {r : List Nat} (hi : st.input = 0x29 :: r)
-    (hd : 1 ≤ st.depth) :
-    PInv e u { st with input := r, depth := st.depth - 1 } := by
+/-- Entering a capturing group: `(` consumed, `depth + 1`, one more group. -/
+theorem PInv.enterCap {e k u : Bool} {G K : Nat} {st : PState} (h : PInv e k u G K st) {r : List Nat}
+    (hi : st.input = 0x28 :: r) (hr : ∀ r', r ≠ 0x3F :: r') :
+    PInv e k u G K { st with input := r, depth := st.depth + 1, groupCount := st.groupCount + 1 } := by
   have h1 := h.depth; have h2 := h.groups; have h3 := h.loops; have h4 := h.frag
-  have h6 := h.chars
-  rw [hi] at h1 h2 h3 h4 h6
-  rw [md_cons _ (by decide)] at h1
+  have h6 := h.chars; have h8 := h.cap
+  rw [hi] at h1 h2 h3 h4 h6 h8
+  rw [md_cons _ (by decide) (by decide)] at h1
+  rw [capOpens_cap hr] at h8
   simp only [opens, quants] at h2 h3
   simp at h1 h2 h3
-  exact ⟨h.uni, fragCore_tail (by decide) h4, fun he c hc => h6 he c (by simp [hc]),
-    by simp only; omega, h2, h3⟩
+  exact ⟨h.uni, h.nov, fragCore_tail (by decide) (by decide) h4, fun he c hc => h6 he c (by simp [hc]), by simp only; omega,
+    by simp only; omega, h3, h.gmax, by simp only; omega⟩
+
+theorem PInv.groups_lt {e k u : Bool} {G K : Nat} {st : PState} (h : PInv e k u G K st) {r : List Nat}
+    (hi : st.input = 0x28 :: r) : st.groupCount < Gen.MAX_CAPTURE_GROUPS := by
+  have h2 := h.groups
+  rw [hi] at h2
+  simp only [opens] at h2
+  simp at h2
+  simp only [Gen.MAX_CAPTURE_GROUPS]; omega
+
+/-- Leaving a group: the `)` consumed, `depth` restored. -/
+theorem PInv.leave {e k u : Bool} {G K : Nat} {st : PState} (h : PInv e k u G K st) {r : List Nat}
+    (hi : st.input = 0x29 :: r) (hd : 1 ≤ st.depth) :
+    PInv e k u G K { st with input := r, depth := st.depth - 1 } := by
+  have h1 := h.depth; have h2 := h.groups; have h3 := h.loops; have h4 := h.frag
+  have h6 := h.chars; have h8 := h.cap
+  rw [hi] at h1 h2 h3 h4 h6 h8
+  rw [md_cons _ (by decide) (by decide)] at h1
+  rw [capOpens_plain _ (by decide) (by decide) (by decide)] at h8
+  simp only [opens, quants] at h2 h3
+  simp at h1 h2 h3
+  exact ⟨h.uni, h.nov, fragCore_tail (by decide) (by decide) h4, fun he c hc => h6 he c (by simp [hc]),
+    by simp only; omega, h2, h3, h.gmax, h8⟩
 
 /-! ### Unfolding equations, conditional form (no `match` in the statements) -/
 
@@ -632,10 +714,11 @@ theorem cd_err {f : Nat} {st : PState} {e : ParseError}
   simp only
   rw [if_neg (by omega), h]
 
-theorem simB_step {c : Cfg} {e u : Bool} {n : Nat} (hD : SimD c e u n) : SimB c e u (n + 1) := by
-  intro s est hn he f st hf hin hi
+theorem simB_step {c : Cfg} {e k u : Bool} {G K : Nat} {n : Nat} (hD : SimD c e k u G K n) :
+    SimB c e k u G K (n + 1) := by
+  intro s est hn he f st hf hin hi hg
   obtain ⟨f', rfl⟩ : ∃ f', f = f' + 1 := ⟨f - 1, by omega⟩
-  have hD' := hD s est (by omega) he f' { st with depth := st.depth + 1 } [] (by omega) hin hi
+  have hD' := hD s est (by omega) he f' { st with depth := st.depth + 1 } [] (by omega) hin hi hg
   have hdep : st.depth + 1 ≤ Gen.MAX_NESTING_DEPTH := by
     have := hi.depth; simp only [Gen.MAX_NESTING_DEPTH] at *; omega
   cases hd : disj c n s est with
@@ -643,21 +726,27 @@ theorem simB_step {c : Cfg} {e u : Bool} {n : Nat} (hD : SimD c e u n) : SimB c 
   | bad =>
     rw [hd] at hD'
     obtain ⟨msg, hm⟩ := hD'
-    rw [body_bad hd, cd_err hdep hm]
-    exact .inl ⟨msg, rfl⟩
+    rw [body_bad hd]
+    exact .inl ⟨msg, cd_err hdep hm⟩
   | ok p =>
     obtain ⟨r, est'⟩ := p
     rw [hd] at hD'
-    obtain ⟨he', ts, st', hl, hr, hdp, hi'⟩ := hD'
-    rw [cd_ok hdep hl]
-    simp only at hdp
-    by_cases hy : ∃ r', r = 0x29 :: r'
-    · obtain ⟨r', rfl⟩ := hy
-      rw [body_ok hd]
-      exact ⟨he', _, _, rfl, hr, rfl, by simp only; omega, hi'.leave hr (by omega)⟩
-    · rw [body_nok hd (fun r' e => hy ⟨r', e⟩)]
-      exact .inr ⟨_, _, rfl, fun r' e => hy ⟨r', by rw [← hr]; exact e⟩⟩
-
+    rcases hD' with ⟨he', ts, st', hl, ⟨hr, hdp, hi'⟩, hg'⟩ | ⟨hp, msg, hm⟩
+    · have hcd := cd_ok hdep hl
+      simp only at hdp
+      by_cases hy : ∃ r', r = 0x29 :: r'
+      · obtain ⟨r', rfl⟩ := hy
+        rw [body_ok hd]
+        exact .inl ⟨he', _, _, hcd, hr, ⟨rfl, by simp only; omega, hi'.leave hr (by omega)⟩, hg'⟩
+      · rw [body_nok hd (fun r' e => hy ⟨r', e⟩)]
+        exact .inr ⟨_, _, hcd, fun r' e => hy ⟨r', by rw [← hr]; exact e⟩⟩
+    · have hcd := cd_err hdep hm
+      by_cases hy : ∃ r', r = 0x29 :: r'
+      · obtain ⟨r', rfl⟩ := hy
+        rw [body_ok hd]
+        exact .inr ⟨hp, .inl ⟨msg, hcd⟩⟩
+      · rw [body_nok hd (fun r' e => hy ⟨r', e⟩)]
+        exact .inl ⟨msg, hcd⟩
 
 /-! ### `alt` against `termLoop` -/
 
@@ -701,23 +790,23 @@ theorem termLoop_step {f : Nat} {st : PState} {acc : List Node} {x : Nat} {r0 : 
     rw [termLoop_succ, hin]
     simp only [hc, Bool.false_eq_true, if_false, h]
 
-theorem CR.trans {e u : Bool} {st st' st'' : PState} {r r2 : List Nat} (h1 : CR e u st r st')
-    (h2 : CR e u st' r2 st'') : CR e u st r2 st'' :=
+theorem CR.trans {e k u : Bool} {G K : Nat} {st st' st'' : PState} {r r2 : List Nat}
+    (h1 : CR e k u G K st r st') (h2 : CR e k u G K st' r2 st'') : CR e k u G K st r2 st'' :=
   ⟨h2.1, h2.2.1.trans h1.2.1, h2.2.2⟩
 
-theorem simA_step {c : Cfg} {e u : Bool} {n : Nat} (hu : c.u = u) (hT : SimT c e u n) (hA : SimA c e u n) :
-    SimA c e u (n + 1) := by
-  intro s est hn he f st acc hf hin hi
+theorem simA_step {c : Cfg} {e k u : Bool} {G K : Nat} {n : Nat} (hu : c.u = u) (hT : SimT c e k u G K n)
+    (hA : SimA c e k u G K n) : SimA c e k u G K (n + 1) := by
+  intro s est hn he f st acc hf hin hi hg
   obtain ⟨f', rfl⟩ : ∃ f', f = f' + 1 := ⟨f - 1, by omega⟩
   by_cases hstop : s = [] ∨ (∃ r, s = 0x7C :: r) ∨ ∃ r, s = 0x29 :: r
   · rw [alt_stop hstop, termLoop_stop (by rw [hin]; exact hstop)]
-    exact ⟨he, _, _, rfl, hin, rfl, hi⟩
+    exact .inl ⟨he, _, _, rfl, ⟨hin, rfl, hi⟩, hg⟩
   · rcases s with _ | ⟨x, r0⟩
     · exact absurd (.inl rfl) hstop
     · have h1 : x ≠ 0x7C := fun e => hstop (.inr (.inl ⟨r0, by rw [e]⟩))
       have h2 : x ≠ 0x29 := fun e => hstop (.inr (.inr ⟨r0, by rw [e]⟩))
       simp only [List.length_cons] at hn hf
-      have hT' := hT x r0 est (by omega) he h2 h1 f' st acc (by omega) hin hi
+      have hT' := hT x r0 est (by omega) he h2 h1 f' st acc (by omega) hin hi hg
       obtain ⟨ea, eb, ec⟩ := alt_term (c := c) (n := n) (r0 := r0) (est := est) h1 h2
       obtain ⟨ta, tb⟩ := termLoop_step (f := f') (acc := acc) hin h1 h2
       cases ht : term c n (x :: r0) est with
@@ -730,25 +819,20 @@ theorem simA_step {c : Cfg} {e u : Bool} {n : Nat} (hu : c.u = u) (hT : SimT c e
       | ok p =>
         obtain ⟨r, est1⟩ := p
         rw [ht] at hT'
-        obtain ⟨he1, hts⟩ := hT'
         have hlen := ((dOk c n).2.2.2.1 (x :: r0) est (by simp only [List.length_cons]; omega)).2 r est1 ht
         simp only [List.length_cons] at hlen
         rw [ea r est1 ht]
-        rcases hts with ⟨st', acc', hst, hcr⟩ | ⟨hq, msg, hm⟩
-        · rw [ta st' acc' hst]
-          have hA' := hA r est1 (by omega) he1 f' st' acc' (by omega) hcr.1 hcr.2.2
-          cases ha : alt c n r est1 with
-          | fuel => rw [ha] at hA'; exact hA'.elim
-          | bad => rw [ha] at hA'; exact hA'
-          | ok p2 =>
-            obtain ⟨r2, est2⟩ := p2
-            rw [ha] at hA'
-            obtain ⟨he2, nd, st'', hl, hcr2⟩ := hA'
-            exact ⟨he2, nd, st'', hl, hcr.trans hcr2⟩
-        · obtain ⟨m, rfl⟩ : ∃ m, n = m + 4 := ⟨n - 4, by omega⟩
-          rw [alt_qbad c m r est1 (by rw [hu]; exact hq), tb _ hm]
-          exact ⟨msg, rfl⟩
-
+        rcases hT' with ⟨he1, hts⟩ | ⟨hp, msg, hm⟩
+        · rcases hts with ⟨st', acc', hst, hcr, hg1⟩ | ⟨hq, msg, hm⟩
+          · rw [ta st' acc' hst]
+            have hA' := hA r est1 (by omega) he1 f' st' acc' (by omega) hcr.1 hcr.2.2 hg1
+            exact hA'.mono (fun r2 est2 _ ⟨nd, st'', hl, hcr2, hg2⟩ => ⟨nd, st'', hl, hcr.trans hcr2, hg2⟩) id
+          · obtain ⟨m, rfl⟩ : ∃ m, n = m + 4 := ⟨n - 4, by omega⟩
+            rw [alt_qbad c m r est1 (by rw [hu]; exact hq), tb _ hm]
+            exact ⟨msg, rfl⟩
+        · rw [tb _ hm]
+          exact Out.poison ((dOk c n).2.1 r est1 (by omega)).1
+            (fun r2 est2 h2 => hp.mono ((mono c n).2.1 r est1 r2 est2 h2)) ⟨msg, rfl⟩
 
 /-! ### `disj` against `disjLoop` -/
 
@@ -800,13 +884,13 @@ theorem disjLoop_eqs {f : Nat} {st : PState} {terms : List Node} :
     simp only [ht]
   · intro e h; rw [disjLoop, h]
 
-theorem simD_step {c : Cfg} {e u : Bool} {n : Nat} (hA : SimA c e u n) (hD : SimD c e u n) :
-    SimD c e u (n + 1) := by
-  intro s est hn he f st terms hf hin hi
+theorem simD_step {c : Cfg} {e k u : Bool} {G K : Nat} {n : Nat} (hA : SimA c e k u G K n)
+    (hD : SimD c e k u G K n) : SimD c e k u G K (n + 1) := by
+  intro s est hn he f st terms hf hin hi hg
   obtain ⟨f', rfl⟩ : ∃ f', f = f' + 1 := ⟨f - 1, by omega⟩
   obtain ⟨d1, d2, d3, d4, d5, d6⟩ := disj_eqs (c := c) (n := n) (s := s) (est := est)
   obtain ⟨l1, l2, l3⟩ := disjLoop_eqs (f := f') (st := st) (terms := terms)
-  have hA' := hA s est (by omega) he f' st [] (by omega) hin hi
+  have hA' := hA s est (by omega) he f' st [] (by omega) hin hi hg
   cases ha : alt c n s est with
   | fuel => rw [ha] at hA'; exact hA'.elim
   | bad =>
@@ -817,29 +901,45 @@ theorem simD_step {c : Cfg} {e u : Bool} {n : Nat} (hA : SimA c e u n) (hD : Sim
   | ok p =>
     obtain ⟨r, est1⟩ := p
     rw [ha] at hA'
-    obtain ⟨he1, t, st1, hl, hcr⟩ := hA'
     have hlen := ((dOk c n).2.1 s est (by omega)).2 r est1 ha
-    by_cases hp : ∃ r', r = 0x7C :: r'
-    · obtain ⟨r', rfl⟩ := hp
-      rw [l1 t st1 r' hl hcr.1]
-      have hi1 : PInv e u { st1 with input := r' } :=
-        hcr.2.2.tail hcr.1 (by decide) (by decide) (by decide)
-      have he1' : EInv { est1 with scope := est.scope } := ⟨he1.maxDec, he1.refs, he1.names⟩
-      simp only [List.length_cons] at hlen
-      have hD' := hD r' _ (by omega) he1' f' { st1 with input := r' } (terms ++ [t]) (by omega) rfl hi1
-      cases hd : disj c n r' { est1 with scope := est.scope } with
-      | fuel => rw [hd] at hD'; exact hD'.elim
-      | bad => rw [hd] at hD'; rw [d2 _ _ ha hd]; exact hD'
-      | ok p2 =>
-        obtain ⟨r2, est2⟩ := p2
-        rw [hd] at hD'
-        obtain ⟨he2, ts, st2, hl2, hcr2⟩ := hD'
-        rw [d1 _ _ _ _ ha hd]
-        refine ⟨⟨he2.maxDec, he2.refs, he2.names⟩, ts, st2, hl2, hcr2.1, ?_, hcr2.2.2⟩
-        rw [hcr2.2.1]; exact hcr.2.1
-    · have hnp : ∀ r', r ≠ 0x7C :: r' := fun r' e => hp ⟨r', e⟩
-      rw [d4 _ _ ha hnp, l2 t st1 hl (fun r' e => hnp r' (by rw [← hcr.1]; exact e))]
-      exact ⟨he1, _, _, rfl, hcr⟩
+    rcases hA' with ⟨he1, t, st1, hl, hcr, hg1⟩ | ⟨hp, msg, hm⟩
+    · by_cases hp : ∃ r', r = 0x7C :: r'
+      · obtain ⟨r', rfl⟩ := hp
+        rw [l1 t st1 r' hl hcr.1]
+        have hi1 : PInv e k u G K { st1 with input := r' } :=
+          hcr.2.2.tail hcr.1 (by decide) (by decide) (by decide) (by decide)
+        have he1' : EInv G { est1 with scope := est.scope } := ⟨he1.maxDec, he1.refs, he1.names⟩
+        simp only [List.length_cons] at hlen
+        have hD' := hD r' _ (by omega) he1' f' { st1 with input := r' } (terms ++ [t]) (by omega) rfl hi1 hg1
+        cases hd : disj c n r' { est1 with scope := est.scope } with
+        | fuel => rw [hd] at hD'; exact hD'.elim
+        | bad => rw [hd] at hD'; rw [d2 _ _ ha hd]; exact hD'
+        | ok p2 =>
+          obtain ⟨r2, est2⟩ := p2
+          rw [hd] at hD'
+          rw [d1 _ _ _ _ ha hd]
+          rcases hD' with ⟨he2, ts, st2, hl2, hcr2, hg2⟩ | ⟨hp2, hs2⟩
+          · refine .inl ⟨⟨he2.maxDec, he2.refs, he2.names⟩, ts, st2, hl2, ⟨hcr2.1, ?_, hcr2.2.2⟩, hg2⟩
+            rw [hcr2.2.1]; exact hcr.2.1
+          · exact .inr ⟨hp2, hs2⟩
+      · have hnp : ∀ r', r ≠ 0x7C :: r' := fun r' e => hp ⟨r', e⟩
+        rw [d4 _ _ ha hnp, l2 t st1 hl (fun r' e => hnp r' (by rw [← hcr.1]; exact e))]
+        exact .inl ⟨he1, _, _, rfl, hcr, hg1⟩
+    · rw [l3 _ hm]
+      by_cases hpp : ∃ r', r = 0x7C :: r'
+      · obtain ⟨r', rfl⟩ := hpp
+        simp only [List.length_cons] at hlen
+        have hp' : Poisoned G ({ est1 with scope := est.scope } : ESG.St) := hp
+        cases hd : disj c n r' { est1 with scope := est.scope } with
+        | fuel => exact absurd hd ((dOk c n).1 r' _ (by omega)).1
+        | bad => rw [d2 _ _ ha hd]; exact ⟨msg, rfl⟩
+        | ok p2 =>
+          obtain ⟨r2, est2⟩ := p2
+          rw [d1 _ _ _ _ ha hd]
+          exact .inr ⟨hp'.mono ((mono c n).1 r' _ r2 est2 hd), ⟨msg, rfl⟩⟩
+      · have hnp : ∀ r', r ≠ 0x7C :: r' := fun r' e => hpp ⟨r', e⟩
+        rw [d4 _ _ ha hnp]
+        exact .inr ⟨hp, ⟨msg, rfl⟩⟩
 
 /-! ### `quantified` against one term-loop iteration -/
 
@@ -864,11 +964,12 @@ theorem termStep_err {f : Nat} {st : PState} {acc : List Node} {x : Nat} {e : Pa
   unfold termStep; rw [h]
 
 /-- The quantifier part, for a quantifiable atom, in `TStep` form. -/
-theorem tstep_qa {e u : Bool} {f : Nat} {st : PState} {acc : List Node} {x : Nat} {out : AtomOut} {r : List Nat}
-    (h : consumeAtom f st acc x = .ok out) (hcr : CR e u st r out.st)
-    (hoff : out.startOffset ≤ out.result.length) (hqa : out.quantifierAllowed = true) :
+theorem tstep_qa {e k u : Bool} {G K : Nat} {f : Nat} {st : PState} {acc : List Node} {x : Nat} {out : AtomOut}
+    {r : List Nat} (h : consumeAtom f st acc x = .ok out) (hcr : CR e k u G K st r out.st)
+    (hoff : out.startOffset ≤ out.result.length) (hqa : out.quantifierAllowed = true) (g' : Nat)
+    (hg : g' = out.st.groupCount) :
     match optQuant r with
-    | .ok r2 => TStep e u f st acc x r2
+    | .ok r2 => TStep e k u G K f st acc x r2 g'
     | .bad => IsSyn (termStep f st acc x)
     | .fuel => False := by
   have hq := quantStep_qa st.groupCount out hqa hoff hcr.2.2
@@ -880,24 +981,26 @@ theorem tstep_qa {e u : Bool} {f : Nat} {st : PState} {acc : List Node} {x : Nat
   | ok r2 =>
     rw [ho] at hq
     simp only at hq ⊢
-    rcases hq with ⟨st', acc', h1, h2, h3, h4⟩ | ⟨h1, h2⟩
-    · exact .inl ⟨st', acc', by rw [termStep_ok h, h1], h2, h3.trans hcr.2.1, h4⟩
+    rcases hq with ⟨st', acc', h1, h2, h3, h4, h5⟩ | ⟨h1, h2⟩
+    · exact .inl ⟨st', acc', by rw [termStep_ok h, h1], ⟨h2, h3.trans hcr.2.1, h4⟩, by rw [hg, h5]⟩
     · exact .inr ⟨h1, by rw [termStep_ok h]; exact h2⟩
 
 /-- The quantifier part, for a non-quantifiable atom. -/
-theorem tstep_noq {e u : Bool} {f : Nat} {st : PState} {acc : List Node} {x : Nat} {out : AtomOut} {r : List Nat}
-    (h : consumeAtom f st acc x = .ok out) (hcr : CR e u st r out.st)
-    (hqa : out.quantifierAllowed = false) : TStep e u f st acc x r := by
+theorem tstep_noq {e k u : Bool} {G K : Nat} {f : Nat} {st : PState} {acc : List Node} {x : Nat} {out : AtomOut}
+    {r : List Nat} (h : consumeAtom f st acc x = .ok out) (hcr : CR e k u G K st r out.st)
+    (hqa : out.quantifierAllowed = false) (g' : Nat) (hg : g' = out.st.groupCount) :
+    TStep e k u G K f st acc x r g' := by
   obtain ⟨h1, h2⟩ := quantStep_noq st.groupCount out hqa hcr.2.2
   rw [hcr.1] at h1 h2
   cases hb : qbad u r with
-  | false => exact .inl ⟨out.st, out.result, by rw [termStep_ok h, h1 hb], hcr⟩
+  | false => exact .inl ⟨out.st, out.result, by rw [termStep_ok h, h1 hb], hcr, hg⟩
   | true => exact .inr ⟨hb, by rw [termStep_ok h]; exact h2 hb⟩
 
-theorem simQ_step {c : Cfg} {e u : Bool} {n : Nat} (hM : SimM c e u n) : SimQ c e u (n + 1) := by
-  intro x r0 est hn he hl h1 h2 h3 h4 f st acc hf hin hi
+theorem simQ_step {c : Cfg} {e k u : Bool} {G K : Nat} {n : Nat} (hM : SimM c e k u G K n) :
+    SimQ c e k u G K (n + 1) := by
+  intro x r0 est hn he hl h1 h2 h3 h4 f st acc hf hin hi hg
   obtain ⟨q1, q2, q3, q4⟩ := quantified_eqs (c := c) (n := n) (s := x :: r0) (est := est)
-  have hM' := hM x r0 est (by omega) he hl h1 h2 h3 h4 f st acc hf hin hi
+  have hM' := hM x r0 est (by omega) he hl h1 h2 h3 h4 f st acc hf hin hi hg
   cases ha : atom c n (x :: r0) est with
   | fuel => rw [ha] at hM'; exact hM'.elim
   | bad =>
@@ -908,47 +1011,71 @@ theorem simQ_step {c : Cfg} {e u : Bool} {n : Nat} (hM : SimM c e u n) : SimQ c 
   | ok p =>
     obtain ⟨r, est1⟩ := p
     rw [ha] at hM'
-    obtain ⟨he1, out, hout, hcr, hoff, hqa⟩ := hM'
-    have := tstep_qa hout hcr hoff hqa
-    cases ho : optQuant r with
-    | fuel => rw [ho] at this; exact this.elim
-    | bad => rw [ho] at this; rw [q2 _ _ ha ho]; exact this
-    | ok r2 => rw [ho] at this; rw [q1 _ _ _ ha ho]; exact ⟨he1, this⟩
+    rcases hM' with ⟨he1, out, hout, hcr, hoff, hqa, hg1⟩ | ⟨hp, msg, hm⟩
+    · have := tstep_qa hout hcr hoff hqa est1.groups hg1
+      cases ho : optQuant r with
+      | fuel => rw [ho] at this; exact this.elim
+      | bad => rw [ho] at this; rw [q2 _ _ ha ho]; exact this
+      | ok r2 => rw [ho] at this; rw [q1 _ _ _ ha ho]; exact .inl ⟨he1, this⟩
+    · have hs : IsSyn (termStep f st acc x) := ⟨msg, termStep_err hm⟩
+      cases ho : optQuant r with
+      | fuel => exact absurd ho (optQuant_nofuel r)
+      | bad => rw [q2 _ _ ha ho]; exact hs
+      | ok r2 => rw [q1 _ _ _ ha ho]; exact .inr ⟨hp, hs⟩
 
 /-! ### Groups -/
 
 /-- A parenthesised disjunction: the grammar's `body` against the crate's `consume_disjunction`
 followed by the `)` test, for any node wrapper. -/
-theorem group_sim {c : Cfg} {e u : Bool} {n : Nat} (hB : SimB c e u n) {r' : List Nat} {est1 : ESG.St}
-    {f' : Nat} {st1 : PState} (hn : 6 * r'.length + 6 ≤ n) (he1 : EInv est1) (hf : 4 * r'.length + 3 ≤ f')
-    (hin1 : st1.input = r') (hi1 : PInv e u { st1 with depth := st1.depth + 1 })
+theorem group_sim {c : Cfg} {e k u : Bool} {G K : Nat} {n : Nat} (hB : SimB c e k u G K n) {r' : List Nat}
+    {est1 : ESG.St} {f' : Nat} {st1 : PState} (hn : 6 * r'.length + 6 ≤ n) (he1 : EInv G est1)
+    (hf : 4 * r'.length + 3 ≤ f') (hin1 : st1.input = r')
+    (hi1 : PInv e k u G K { st1 with depth := st1.depth + 1 }) (hg1 : est1.groups = st1.groupCount)
     (W : Node → PState → Node) (qa : Bool) (acc : List Node) :
-    match body c n r' est1 with
-    | .ok (r, est') => EInv est' ∧ ∃ out,
+    Out G (body c n r' est1)
+      (fun r est' => ∃ out,
         closeParenA acc acc.length (wrapCd (consumeDisjunction f') st1 W qa) = .ok out ∧
-        CR e u st1 r out.st ∧ out.startOffset ≤ out.result.length ∧ out.quantifierAllowed = qa
-    | .bad => IsSyn (closeParenA acc acc.length (wrapCd (consumeDisjunction f') st1 W qa))
-    | .fuel => False := by
-  have hB' := hB r' est1 hn he1 f' st1 hf hin1 hi1
-  cases hb : body c n r' est1 with
-  | fuel => rw [hb] at hB'; exact hB'
-  | bad => rw [hb] at hB'; exact closeParen_syn W qa acc acc.length hB'
-  | ok p =>
-    obtain ⟨r, est'⟩ := p
-    rw [hb] at hB'
-    obtain ⟨he', nd, st2, hcd, hr, hcr⟩ := hB'
-    exact ⟨he', _, closeParen_ok W qa acc acc.length hcd hr, hcr, by simp, rfl⟩
+        CR e k u G K st1 r out.st ∧ out.startOffset ≤ out.result.length ∧ out.quantifierAllowed = qa ∧
+        est'.groups = out.st.groupCount)
+      (IsSyn (closeParenA acc acc.length (wrapCd (consumeDisjunction f') st1 W qa))) := by
+  have hB' := hB r' est1 hn he1 f' st1 hf hin1 hi1 hg1
+  refine hB'.mono ?_ (fun hs => closeParen_syn W qa acc acc.length hs)
+  rintro r est' _ ⟨nd, st2, hcd, hr, hcr, hg2⟩
+  exact ⟨_, closeParen_ok W qa acc acc.length hcd hr, hcr, by simp, rfl, hg2⟩
 
-theorem frag_bs_e {e : Bool} {r0 : List Nat} (h : fragCore e (0x5C :: r0) = true) : e = true := by
+theorem frag_bs_e {e k : Bool} {r0 : List Nat} (h : fragCore e k (0x5C :: r0) = true) : e = true := by
   rcases r0 with _ | ⟨x, r⟩
-  · simpa [fragCore] using h
+  · simpa [fragCore, fragGo] using h
   · rw [fragCore_esc] at h
     simp only [Bool.and_eq_true] at h
     exact h.1.1
 
-theorem simM_step {c : Cfg} {e u : Bool} {n : Nat} (hu : c.u = u) (heu : e = true → u = true)
-    (hB : SimB c e u n) : SimM c e u (n + 1) := by
-  intro x r0 est hn he hl h1 h2 h3 h4 f st acc hf hin hi
+theorem parenOk_other {y : Nat} {r2 : List Nat} (hpo : parenOk (0x3F :: y :: r2) = true)
+    (hl : lookShape (0x28 :: 0x3F :: y :: r2) = false) (hy : y ≠ 0x3A) :
+    y ≠ 0x3C ∧ y ≠ 0x3D ∧ y ≠ 0x21 ∧ y ≠ 0x3A ∧ y ≠ 0x69 ∧ y ≠ 0x6D ∧ y ≠ 0x73 ∧ y ≠ 0x2D := by
+  refine ⟨?_, ?_, ?_, hy, ?_⟩
+  · rintro rfl
+    rcases r2 with _ | ⟨z, r3⟩
+    · simp [parenOk] at hpo
+    · simp [parenOk] at hpo; simp [lookShape] at hl; omega
+  · rintro rfl; simp [lookShape] at hl
+  · rintro rfl; simp [lookShape] at hl
+  · by_cases hyc : y = 0x3C
+    · subst hyc
+      rcases r2 with _ | ⟨z, r3⟩
+      · simp [parenOk] at hpo
+      · simp [parenOk] at hpo; simp [lookShape] at hl; omega
+    · have : parenOk (0x3F :: y :: r2) = !(y == 0x69 || y == 0x6D || y == 0x73 || y == 0x2D) := by
+        unfold parenOk
+        split <;> simp_all
+      rw [this] at hpo
+      simp at hpo
+      omega
+
+theorem simM_step {c : Cfg} {e k u : Bool} {G K : Nat} {n : Nat} (hu : c.u = u) (heu : e = true → u = true)
+    (hkk : k = true → e = true ∧ u = true ∧ c.v = false)
+    (hB : SimB c e k u G K n) : SimM c e k u G K (n + 1) := by
+  intro x r0 est hn he hl h1 h2 h3 h4 f st acc hf hin hi hg
   obtain ⟨f', rfl⟩ : ∃ f', f = f' + 1 := ⟨f - 1, by omega⟩
   rw [consumeAtom_succ]
   have hfr := hi.frag
@@ -964,21 +1091,63 @@ theorem simM_step {c : Cfg} {e u : Bool} {n : Nat} (hu : c.u = u) (heu : e = tru
       have := hi.chars he'
       rw [hin] at this
       exact fun c hc => this c (by simp [hc])
-    have hs := backslash_sim e c hu st hiu acc hin hfr hch hl est
     rw [atom_bs, cAtom_bs]
-    cases hae : atomEscape c r0 est with
-    | fuel => rw [hae] at hs; exact hs
-    | bad => rw [hae] at hs; exact hs
+    by_cases hdig : ∃ y r, r0 = y :: r ∧ 0x31 ≤ y ∧ y ≤ 0x39
+    · -- a decimal escape: a back-reference, checked against the pre-scan count by the crate and
+      -- against the final group count by the grammar
+      obtain ⟨y, r, rfl, hd⟩ := hdig
+      rw [atomEscape_dec c hu r hd est, backslash_dec st hiu acc hin hd]
+      obtain ⟨p, hp, hnp⟩ := dec_neutral e k false r hd
+      by_cases hle : min (takeDigits (y :: r) 0 0).1 USIZE_MAX ≤ st.groupCountMax
+      · rw [if_pos hle]
+        rw [hi.gmax] at hle
+        refine .inl ⟨⟨?_, he.refs, he.names⟩, _, rfl, ⟨rfl, rfl, hi.drop (hin.trans hp) hnp⟩, by simp, rfl, hg⟩
+        have := he.maxDec
+        simp only; omega
+      · rw [if_neg hle]
+        rw [hi.gmax] at hle
+        refine .inr ⟨?_, isSyn_synErr _⟩
+        unfold Poisoned
+        simp only; omega
+    · have hnd : ∀ y r, r0 = y :: r → ¬ (0x31 ≤ y ∧ y ≤ 0x39) := fun y r h1 h2 => hdig ⟨y, r, h1, h2⟩
+      have hs := backslash_sim e k c hu st hiu acc hin hfr hch hl hnd est
+      cases hae : atomEscape c r0 est with
+      | fuel => rw [hae] at hs; exact hs
+      | bad => rw [hae] at hs; exact hs
+      | ok p =>
+        obtain ⟨r', est'⟩ := p
+        rw [hae] at hs
+        obtain ⟨rfl, nd, p, hab, hp, hnp⟩ := hs
+        exact .inl ⟨he, _, hab, ⟨rfl, rfl, hi.drop (hin.trans hp) hnp⟩, by simp, rfl, hg⟩
+  by_cases hx2 : x = 0x5B
+  · -- a character class (UnicodeMode without `v` only)
+    subst hx2
+    have hk : k = true ∧ fragGo e k true r0 = true := by
+      have := hfr
+      unfold fragCore at this
+      rw [fragGo_open, Bool.and_eq_true] at this
+      exact this
+    obtain ⟨hke, hku, hkv⟩ := hkk hk.1
+    subst hku
+    have hch : AllChar r0 := by
+      have := hi.chars hke
+      rw [hin] at this
+      exact fun c hc => this c (by simp [hc])
+    have hs := class_sim e k c hu hkv (cd := consumeDisjunction f') st hiu (hi.nov hk.1) acc hin hch hk.2
+      n (by omega) est
+    cases hat : atom c (n + 1) (0x5B :: r0) est with
+    | fuel => rw [hat] at hs; exact hs
+    | bad => rw [hat] at hs; exact hs
     | ok p =>
       obtain ⟨r', est'⟩ := p
-      rw [hae] at hs
-      obtain ⟨rfl, nd, p, hab, hp, hnp⟩ := hs
-      exact ⟨he, _, hab, ⟨rfl, rfl, hi.drop (hin.trans hp) hnp⟩, by simp, rfl⟩
-  obtain ⟨hx2, hpo⟩ := fragCore_head hx1 hfr
+      rw [hat] at hs
+      obtain ⟨rfl, ⟨nd, hnd⟩, p, hp, hnp⟩ := hs
+      exact .inl ⟨he, _, hnd, ⟨rfl, rfl, hi.drop (hin.trans hp) hnp⟩, by simp, rfl, hg⟩
+  have hpo := fragCore_head hx1 hx2 hfr
   by_cases hdot : x = 0x2E
   · subst hdot
     rw [atom_dot, cAtom_dot hin]
-    exact ⟨he, _, rfl, ⟨rfl, rfl, hi.tail hin (by decide) (by decide) (by decide)⟩, by simp, rfl⟩
+    exact .inl ⟨he, _, rfl, ⟨rfl, rfl, hi.tail hin (by decide) (by decide) (by decide) (by decide)⟩, by simp, rfl, hg⟩
   by_cases hpar : x = 0x28
   · subst hpar
     rw [cAtom_paren]
@@ -988,61 +1157,29 @@ theorem simM_step {c : Cfg} {e u : Bool} {n : Nat} (hu : c.u = u) (heu : e = tru
       rcases r1 with _ | ⟨y, r2⟩
       · -- `(?` at the end of the pattern
         rw [atom_qend]
-        exact paren_qend hin (hi.enter (p := []) (r := [0x3F]) hin (neutral_nil e) false).2.2
+        exact paren_qend hin (hi.groups_lt hin)
       · by_cases hy : y = 0x3A
         · subst hy
           rw [atom_noncap, paren_noncapture hin]
-          have hent := (hi.enter (p := [0x3F, 0x3A]) (r := r2) hin
-            (neutral_plains e (by intro c hc; simp at hc; rcases hc with rfl | rfl <;>
-              (refine ⟨?_, ?_, ?_⟩ <;> decide))) st.hasLookbehind).1
+          have hent := hi.enterQ (p := [0x3A]) (r := r2) hin
+            (neutral_plain e k (by refine ⟨?_, ?_, ?_, ?_, ?_⟩ <;> decide)) st.hasLookbehind
           simp only [List.length_cons] at hn hf
           have := group_sim hB (r' := r2) (est1 := est) (f' := f') (st1 := { st with input := r2 })
-            (by omega) he (by omega) rfl hent (fun c _ => c) true acc
-          cases hb : body c n r2 est with
-          | fuel => rw [hb] at this; exact this
-          | bad => rw [hb] at this; exact this
-          | ok p =>
-            obtain ⟨r, est'⟩ := p
-            rw [hb] at this
-            obtain ⟨he', out, ho, hcr, hoff, hqa⟩ := this
-            exact ⟨he', out, ho, hcr, hoff, hqa⟩
-        · have hyo : y ≠ 0x3C ∧ y ≠ 0x3D ∧ y ≠ 0x21 ∧ y ≠ 0x3A ∧ y ≠ 0x69 ∧ y ≠ 0x6D ∧ y ≠ 0x73 ∧ y ≠ 0x2D := by
-            refine ⟨?_, ?_, ?_, hy, ?_⟩
-            · rintro rfl
-              rcases r2 with _ | ⟨z, r3⟩
-              · simp [parenOk] at hpo
-              · simp [parenOk] at hpo; simp [lookShape] at hl; omega
-            · rintro rfl; simp [lookShape] at hl
-            · rintro rfl; simp [lookShape] at hl
-            · by_cases hyc : y = 0x3C
-              · subst hyc
-                rcases r2 with _ | ⟨z, r3⟩
-                · simp [parenOk] at hpo
-                · simp [parenOk] at hpo; simp [lookShape] at hl; omega
-              · have : parenOk (0x3F :: y :: r2) = !(y == 0x69 || y == 0x6D || y == 0x73 || y == 0x2D) := by
-                  unfold parenOk
-                  split <;> simp_all
-                rw [this] at hpo
-                simp at hpo
-                omega
+            (by omega) he (by omega) rfl hent hg (fun c _ => c) true acc
+          exact this.mono (fun r est' _ ⟨out, ho, hcr, hoff, hqa, hg2⟩ => ⟨out, ho, hcr, hoff, hqa, hg2⟩) id
+        · have hyo := parenOk_other hpo hl hy
           rw [atom_qother c n y r2 est ⟨hyo.1, hyo.2.2.2.1, hyo.2.2.2.2⟩]
           exact paren_other y hin hyo
     · -- capturing group
       have hr : ∀ r', r0 ≠ 0x3F :: r' := fun r' e => hq ⟨r', e⟩
-      obtain ⟨_, hent, hg⟩ := hi.enter (p := []) (r := r0) hin (neutral_nil e) false
-      rw [atom_capture c n r0 est hr, paren_capture hin hr hg]
-      have he1 : EInv { est with groups := est.groups + 1 } := ⟨he.maxDec, he.refs, he.names⟩
+      have hent := hi.enterCap hin hr
+      rw [atom_capture c n r0 est hr, paren_capture hin hr (hi.groups_lt hin)]
+      have he1 : EInv G { est with groups := est.groups + 1 } := ⟨he.maxDec, he.refs, he.names⟩
       have := group_sim hB (r' := r0) (est1 := { est with groups := est.groups + 1 }) (f' := f')
         (st1 := { st with input := r0, groupCount := st.groupCount + 1 })
-        (by omega) he1 (by omega) rfl hent (fun c _ => .group st.groupCount none c) true acc
-      cases hb : body c n r0 { est with groups := est.groups + 1 } with
-      | fuel => rw [hb] at this; exact this
-      | bad => rw [hb] at this; exact this
-      | ok p =>
-        obtain ⟨r, est'⟩ := p
-        rw [hb] at this
-        obtain ⟨he', out, ho, hcr, hoff, hqa⟩ := this
-        exact ⟨he', out, ho, hcr, hoff, hqa⟩
+        (by omega) he1 (by omega) rfl hent (by simp only; rw [hg]) (fun c _ => .group st.groupCount none c)
+        true acc
+      exact this.mono (fun r est' _ ⟨out, ho, hcr, hoff, hqa, hg2⟩ => ⟨out, ho, hcr, hoff, hqa, hg2⟩) id
   by_cases hqc : x = 0x2A ∨ x = 0x2B ∨ x = 0x3F
   · rw [atom_quantchar c n x r0 est hqc]
     exact cAtom_quantchar x hqc
@@ -1061,7 +1198,7 @@ theorem simM_step {c : Cfg} {e u : Bool} {n : Nat} (hu : c.u = u) (heu : e = tru
       | none =>
         rw [hb] at this
         obtain ⟨nd, hnd⟩ := this
-        exact ⟨he, _, hnd, ⟨rfl, rfl, hi.tail hin (by decide) (by decide) (by decide)⟩, by simp, rfl⟩
+        exact .inl ⟨he, _, hnd, ⟨rfl, rfl, hi.tail hin (by decide) (by decide) (by decide) (by decide)⟩, by simp, rfl, hg⟩
   by_cases hcl : x = 0x7D ∨ x = 0x5D
   · rw [atom_close c n x r0 est hcl]
     cases u with
@@ -1071,14 +1208,14 @@ theorem simM_step {c : Cfg} {e u : Bool} {n : Nat} (hu : c.u = u) (heu : e = tru
     | false =>
       rw [hu]; simp only [Bool.false_eq_true, if_false]
       obtain ⟨nd, hnd⟩ := cAtom_close_legacy (cd := consumeDisjunction f') (acc := acc) x hin hcl hiu
-      exact ⟨he, _, hnd, ⟨rfl, rfl, hi.tail hin hpar h3 hx1⟩, by simp, rfl⟩
+      exact .inl ⟨he, _, hnd, ⟨rfl, rfl, hi.tail hin hpar h3 hx1 hx2⟩, by simp, rfl, hg⟩
   · have hsc : ESG.isSyntaxChar x = false := by
       simp only [ESG.isSyntaxChar, Bool.or_eq_false_iff, beq_eq_false_iff_ne]
       simp only [not_or] at hqc hcl
       exact ⟨⟨⟨⟨⟨⟨⟨⟨⟨⟨⟨⟨⟨h1, h2⟩, hx1⟩, hdot⟩, hqc.1⟩, hqc.2.1⟩, hqc.2.2⟩, hpar⟩, h3⟩, hx2⟩, hcl.2⟩, hbr⟩, hcl.1⟩, h4⟩
     rw [atom_lit c n x r0 est hsc]
     obtain ⟨nd, hnd⟩ := cAtom_lit (cd := consumeDisjunction f') (acc := acc) x hin hsc
-    exact ⟨he, _, hnd, ⟨rfl, rfl, hi.tail hin hpar h3 hx1⟩, by simp, rfl⟩
+    exact .inl ⟨he, _, hnd, ⟨rfl, rfl, hi.tail hin hpar h3 hx1 hx2⟩, by simp, rfl, hg⟩
 
 /-! ### `term` against one term-loop iteration -/
 
@@ -1114,107 +1251,108 @@ theorem lookShape_cases {s : List Nat} (h : lookShape s = true) :
   · rename_i z r; exact .inr (.inr ⟨z, r, rfl, by simpa using h⟩)
   · cases h
 
-theorem simT_step {c : Cfg} {e u : Bool} {n : Nat} (hu : c.u = u) (hQ : SimQ c e u n) (hB : SimB c e u n) :
-    SimT c e u (n + 1) := by
-  intro x r0 est hn he h3 h4 f st acc hf hin hi
+
+theorem simT_step {c : Cfg} {e k u : Bool} {G K : Nat} {n : Nat} (hu : c.u = u) (hQ : SimQ c e k u G K n)
+    (hB : SimB c e k u G K n) : SimT c e k u G K (n + 1) := by
+  intro x r0 est hn he h3 h4 f st acc hf hin hi hg
   have hiu := hi.uni
   by_cases hanc : x = 0x5E ∨ x = 0x24
   · -- `^`, `$`
     obtain ⟨f', rfl⟩ : ∃ f', f = f' + 1 := ⟨f - 1, by omega⟩
     rw [term_anchor c n x r0 est hanc]
-    refine ⟨he, ?_⟩
+    refine .inl ⟨he, ?_⟩
     rcases hanc with rfl | rfl
     · have ho := (consumeAtom_succ f' st acc 0x5E).trans (cAtom_caret hin)
-      exact tstep_noq ho ⟨rfl, rfl, hi.tail hin (by decide) (by decide) (by decide)⟩ rfl
+      exact tstep_noq ho ⟨rfl, rfl, hi.tail hin (by decide) (by decide) (by decide) (by decide)⟩ rfl _ hg
     · have ho := (consumeAtom_succ f' st acc 0x24).trans (cAtom_dollar hin)
-      exact tstep_noq ho ⟨rfl, rfl, hi.tail hin (by decide) (by decide) (by decide)⟩ rfl
+      exact tstep_noq ho ⟨rfl, rfl, hi.tail hin (by decide) (by decide) (by decide) (by decide)⟩ rfl _ hg
   by_cases hl : lookShape (x :: r0) = true
   · obtain ⟨f', rfl⟩ : ∃ f', f = f' + 1 := ⟨f - 1, by omega⟩
     rcases lookShape_cases hl with ⟨z, r, hs, hz⟩ | ⟨z, r, hs, hz⟩ | ⟨z, r, hs, hz⟩
     · -- look-behind: never quantifiable
       obtain ⟨rfl, rfl⟩ : x = 0x28 ∧ r0 = 0x3F :: 0x3C :: z :: r := by simpa using hs
       rw [term_lookbehind c n z r est hz]
-      have hent := (hi.enter (p := [0x3F, 0x3C, z]) (r := r) hin
-        (neutral_plains e (by
+      have hent := hi.enterQ (p := [0x3C, z]) (r := r) hin
+        (neutral_plains e k (by
           intro c hc; simp at hc; apply plain_punct
-          rcases hc with rfl | rfl | rfl
-          · exact .inl rfl
+          rcases hc with rfl | rfl
           · exact .inr (.inl rfl)
           · rcases hz with rfl | rfl
             · exact .inr (.inr (.inl rfl))
-            · exact .inr (.inr (.inr (.inl rfl))))) true).1
+            · exact .inr (.inr (.inr (.inl rfl))))) true
       simp only [List.length_cons] at hn hf
-      have hg := group_sim hB (r' := r) (est1 := est) (f' := f')
+      have hgs := group_sim hB (r' := r) (est1 := est) (f' := f')
         (st1 := { st with input := r, hasLookbehind := true })
-        (by omega) he (by omega) rfl hent
+        (by omega) he (by omega) rfl hent hg
         (fun c s => .look (z == 0x21) true st.groupCount s.groupCount c) false acc
       have hca : consumeAtom (f' + 1) st acc 0x28 = _ :=
         ((consumeAtom_succ f' st acc 0x28).trans cAtom_paren).trans (paren_lookbehind z hz hin)
-      cases hb : body c n r est with
-      | fuel => rw [hb] at hg; exact hg
-      | bad =>
-        rw [hb] at hg
-        obtain ⟨msg, hm⟩ := hg
-        exact ⟨msg, termStep_err (hca.trans hm)⟩
-      | ok p =>
-        obtain ⟨r', est'⟩ := p
-        rw [hb] at hg
-        obtain ⟨he', out, ho, hcr, hoff, hqa⟩ := hg
-        exact ⟨he', tstep_noq (hca.trans ho) hcr hqa⟩
+      refine hgs.mono ?_ (fun ⟨msg, hm⟩ => ⟨msg, termStep_err (hca.trans hm)⟩)
+      rintro r' est' _ ⟨out, ho, hcr, hoff, hqa, hg2⟩
+      exact tstep_noq (hca.trans ho) hcr hqa _ hg2
     · -- look-ahead: quantifiable exactly in Annex B
       obtain ⟨rfl, rfl⟩ : x = 0x28 ∧ r0 = 0x3F :: z :: r := by simpa using hs
       obtain ⟨t1, t2, t3, t4, t5⟩ := term_la_eqs (c := c) (n := n) (r := r) (est := est) hz
-      have hent := (hi.enter (p := [0x3F, z]) (r := r) hin
-        (neutral_plains e (by
-          intro c hc; simp at hc; apply plain_punct
-          rcases hc with rfl | rfl
-          · exact .inl rfl
-          · rcases hz with rfl | rfl
-            · exact .inr (.inr (.inl rfl))
-            · exact .inr (.inr (.inr (.inl rfl))))) st.hasLookbehind).1
+      have hent := hi.enterQ (p := [z]) (r := r) hin
+        (neutral_plain e k (plain_punct (by
+          rcases hz with rfl | rfl
+          · exact .inr (.inr (.inl rfl))
+          · exact .inr (.inr (.inr (.inl rfl)))))) st.hasLookbehind
       simp only [List.length_cons] at hn hf
-      have hg := group_sim hB (r' := r) (est1 := est) (f' := f')
+      have hgs := group_sim hB (r' := r) (est1 := est) (f' := f')
         (st1 := { st with input := r })
-        (by omega) he (by omega) rfl hent
+        (by omega) he (by omega) rfl hent hg
         (fun c s => .look (z == 0x21) false st.groupCount s.groupCount c) (!st.flags.unicode) acc
       have hca : consumeAtom (f' + 1) st acc 0x28 = _ :=
         ((consumeAtom_succ f' st acc 0x28).trans cAtom_paren).trans (paren_lookahead z hz hin)
       cases hb : body c n r est with
-      | fuel => rw [hb] at hg; exact hg.elim
+      | fuel => rw [hb] at hgs; exact hgs.elim
       | bad =>
-        rw [hb] at hg
-        obtain ⟨msg, hm⟩ := hg
+        rw [hb] at hgs
+        obtain ⟨msg, hm⟩ := hgs
         rw [t4 hb]
         exact ⟨msg, termStep_err (hca.trans hm)⟩
       | ok p =>
         obtain ⟨r', est'⟩ := p
-        rw [hb] at hg
-        obtain ⟨he', out, ho, hcr, hoff, hqa⟩ := hg
-        rw [hiu] at hqa
-        cases u with
-        | true =>
-          rw [t1 r' est' hb hu]
-          exact ⟨he', tstep_noq (hca.trans ho) hcr hqa⟩
-        | false =>
-          have := tstep_qa (hca.trans ho) hcr hoff hqa
-          cases hoq : optQuant r' with
-          | fuel => rw [hoq] at this; exact this.elim
-          | bad => rw [hoq] at this; rw [t3 r' est' hb hu hoq]; exact this
-          | ok r2 => rw [hoq] at this; rw [t2 r' est' r2 hb hu hoq]; exact ⟨he', this⟩
+        rw [hb] at hgs
+        rcases hgs with ⟨he', out, ho, hcr, hoff, hqa, hg2⟩ | ⟨hp, msg, hm⟩
+        · rw [hiu] at hqa
+          cases u with
+          | true =>
+            rw [t1 r' est' hb hu]
+            exact .inl ⟨he', tstep_noq (hca.trans ho) hcr hqa _ hg2⟩
+          | false =>
+            have := tstep_qa (hca.trans ho) hcr hoff hqa est'.groups hg2
+            cases hoq : optQuant r' with
+            | fuel => rw [hoq] at this; exact this.elim
+            | bad => rw [hoq] at this; rw [t3 r' est' hb hu hoq]; exact this
+            | ok r2 => rw [hoq] at this; rw [t2 r' est' r2 hb hu hoq]; exact .inl ⟨he', this⟩
+        · have hs : IsSyn (termStep (f' + 1) st acc 0x28) := ⟨msg, termStep_err (hca.trans hm)⟩
+          cases u with
+          | true =>
+            rw [t1 r' est' hb hu]
+            exact .inr ⟨hp, hs⟩
+          | false =>
+            cases hoq : optQuant r' with
+            | fuel => exact absurd hoq (optQuant_nofuel r')
+            | bad => rw [t3 r' est' hb hu hoq]; exact hs
+            | ok r2 => rw [t2 r' est' r2 hb hu hoq]; exact .inr ⟨hp, hs⟩
     · -- `\\b`, `\\B`
       obtain ⟨rfl, rfl⟩ : x = 0x5C ∧ r0 = z :: r := by simpa using hs
       rw [term_wb c n z r est hz]
       have ho := (consumeAtom_succ f' st acc 0x5C).trans (cAtom_wb z hz hin)
-      exact ⟨he, tstep_noq ho ⟨rfl, rfl, hi.drop (p := [0x5C, z]) hin (neutral_esc e z)⟩ rfl⟩
+      exact .inl ⟨he, tstep_noq ho ⟨rfl, rfl, hi.drop (p := [0x5C, z]) hin (neutral_esc e k z)⟩ rfl _ hg⟩
   · simp only [not_or] at hanc
     rw [term_other c n x r0 est (by simpa using hl) hanc.1 hanc.2]
-    exact hQ x r0 est (by omega) he (by simpa using hl) hanc.1 hanc.2 h3 h4 f st acc hf hin hi
+    exact hQ x r0 est (by omega) he (by simpa using hl) hanc.1 hanc.2 h3 h4 f st acc hf hin hi hg
 
 /-! ## The induction -/
 
 /-- **The simulation**, for every fuel of the grammar recognizer. -/
-theorem sim_all {c : Cfg} {e u : Bool} (hu : c.u = u) (heu : e = true → u = true) (n : Nat) :
-    SimD c e u n ∧ SimA c e u n ∧ SimB c e u n ∧ SimT c e u n ∧ SimQ c e u n ∧ SimM c e u n := by
+theorem sim_all {c : Cfg} {e k u : Bool} (G K : Nat) (hu : c.u = u) (heu : e = true → u = true)
+    (hkk : k = true → e = true ∧ u = true ∧ c.v = false) (n : Nat) :
+    SimD c e k u G K n ∧ SimA c e k u G K n ∧ SimB c e k u G K n ∧ SimT c e k u G K n ∧ SimQ c e k u G K n ∧
+      SimM c e k u G K n := by
   induction n with
   | zero =>
     refine ⟨?_, ?_, ?_, ?_, ?_, ?_⟩
@@ -1227,6 +1365,6 @@ theorem sim_all {c : Cfg} {e u : Bool} (hu : c.u = u) (heu : e = true → u = tr
   | succ n ih =>
     obtain ⟨hD, hA, hB, hT, hQ, hM⟩ := ih
     exact ⟨simD_step hA hD, simA_step hu hT hA, simB_step hD, simT_step hu hQ hB, simQ_step hM,
-      simM_step hu heu hB⟩
+      simM_step hu heu hkk hB⟩
 
 end Regress.C08Frag
